@@ -5,23 +5,16 @@ import (
 )
 
 type readerat struct {
-	rs  io.ReadSeeker
-	off int64
+	rs io.ReadSeeker
 }
 
-// ReadAt provides the io.ReadAt method over a ReadSeeker. It will track the
-// current offset and seek if necessary.
+// ReadAt provides the io.ReadAt method over a ReadSeeker.
+// The ReadSeeker is shared with the node it was obtained from (and with any other
+// subset taken of that node), so its position can have moved since the last call:
+// every read seeks first.
 func (r *readerat) ReadAt(p []byte, off int64) (n int, err error) {
-	if off != r.off {
-		if _, err = r.rs.Seek(off, io.SeekStart); err != nil {
-			return 0, err
-		}
-		r.off = off
+	if _, err = r.rs.Seek(off, io.SeekStart); err != nil {
+		return 0, err
 	}
-	c, err := r.rs.Read(p)
-	if err != nil {
-		return c, err
-	}
-	r.off += int64(c)
-	return c, nil
+	return r.rs.Read(p)
 }
